@@ -386,7 +386,11 @@ func (h *harness) stageHandlers() {
 					}
 					h.rep.Count("handler:claim:" + oh.Class)
 					h.rep.Case(fmt.Sprintf("claims|%s|%s|%s|%s", tname, oh.Class, short(strings.SplitN(oh.Msg, ":", 2)[0], 30), oh.Site), true)
-					if oh.Class == "panic" {
+					if oh.Class == "panic" && quorumInvariant(oh) {
+						// deliberate alarms of the bridge: a claim executes only after >= 66% of the oracle power attested it; these
+						// three sites panic on purpose when the attested event contradicts the chain's own records
+						h.rep.Count("deliberate-quorum-invariant:" + oh.Site)
+					} else if oh.Class == "panic" {
 						h.fail("handler", "recovered-by-baseapp", oh, tname+" passes ValidateBasic and its execution by the quorum oracle panics on "+how+" ("+chain+")",
 							map[string]interface{}{"stage": "handlers", "type_url": url, "claim_bytes_hex": fmt.Sprintf("%x", mbz), "chain": chain, "how": how, "panic": oh.Msg, "top_frame": oh.Top,
 								"note": "claim decoded from these bytes, wrapped into an in-memory MsgClaim of the quorum oracle's bridger, executed by the real MsgServer.Claim on the populated state"})
@@ -421,4 +425,19 @@ func messagePaths(bz []byte, depth int) [][]wstep {
 		}
 	}
 	return out
+}
+
+// quorumInvariant: the explicit panic(...) statements with which the crosschain keeper refuses a QUORUM-attested event that
+// contradicts its own records (unknown batch, unknown bridge call, oracle set that is not the one it issued).
+func quorumInvariant(o outcome) bool {
+	for site, msg := range map[string]string{
+		"fx:x/crosschain/keeper.Keeper.OutgoingTxBatchExecuted": "unknown batch nonce",
+		"fx:x/crosschain/keeper.Keeper.BridgeCallResultHandler": "bridge call not found",
+		"fx:x/crosschain/keeper.Keeper.UpdateOracleSetExecuted": "Potential bridge highjacking",
+	} {
+		if o.Site == site && strings.HasPrefix(o.Msg, msg) {
+			return true
+		}
+	}
+	return false
 }
